@@ -21,7 +21,7 @@ RULE = ("axis triples (start, step, count) drawn on sign/magnitude classes incl.
 
 
 def big_axis(rng, count):
-    klass = int(rng.integers(6))
+    klass = int(rng.integers(8))
     lim = 2 ** 31 - 1
     if klass == 0:
         start, step = int(rng.integers(-100, 100)), int(rng.choice([1, -1, 2, -3, 10]))
@@ -38,6 +38,14 @@ def big_axis(rng, count):
     elif klass == 4:
         step = int(rng.choice([2 ** 20, -2 ** 20, 2 ** 24 + 1, -(2 ** 24 + 3)]))
         start = -step * (count // 2)
+    elif klass in (6, 7) and count >= 3:
+        # an axis spanning 2^31 or more in total (|last - first| >= 2^31): differences of its entries overflow int32
+        # (the increment itself must fit the header's signed 32-bit field: that needs at least three lines)
+        span = int(rng.integers(2 ** 31, 2 ** 32 - 2 * count))
+        step = min(span // (count - 1), 2 ** 31 - 1)
+        start = -(step * (count - 1)) // 2 + int(rng.integers(-3, 3))
+        if klass == 7:
+            start, step = start + step * (count - 1), -step
     else:
         start, step = int(rng.integers(-2 ** 20, 2 ** 20)), int(rng.integers(1, 50)) * int(rng.choice([1, -1]))
     ax = [start + step * k for k in range(count)]
@@ -146,7 +154,9 @@ def interval_sweep(ctx, rng):
 
 def segy_axes(ctx, rng, k):
     n = (int(rng.integers(2, 7)), int(rng.integers(2, 7)), int(rng.choice([2, 3, 8, 50, 77])))
-    case = segycases.regular_case(ctx, rng, n, name='g.sgy')
+    # every second source uses the extreme axis classes (near the int32 limits, spans of 2^31 and more, huge steps)
+    kw = dict(il=big_axis(rng, n[0]), xl=big_axis(rng, n[1])) if k % 2 else {}
+    case = segycases.regular_case(ctx, rng, n, name='g.sgy', **kw)
     with segyio.open(case['path']) as f:
         il, xl, samples, tc = list(map(int, f.ilines)), list(map(int, f.xlines)), np.asarray(f.samples), f.tracecount
     out = ctx.path('g.sgz')
